@@ -49,7 +49,9 @@ class _BaseITML(MahalanobisMixin):
       bounds = bounds.ravel()
       if bounds.size != 2:
         raise ValueError("`bounds` should be an array-like of two elements.")
-      self.bounds_ = bounds
+      # private float copy: the zero replacement below must not write into
+      # the caller's array (nor be lost in an integer one)
+      self.bounds_ = bounds.astype(float)
     self.bounds_[self.bounds_ == 0] = 1e-9
     # set the prior
     # pairs will be deduplicated into X two times, TODO: avoid that
